@@ -23,6 +23,7 @@ LEVEL_ASSUMPTIONS = [
     "the decided clause is 'bound <= bins of every packing we can exhibit': "
     "optimum known by construction / search, not for arbitrary instances"]
 REQUIRED = {"witness_checked": 300, "bound_tight": 50,
+            "concurrent_constructions": 3000,
             "huge_strip_instances_beyond_2^53": 50,
             "damv_above_area": 20, "contract_lower_bound_evaluated": 500,
             "tiny_exhaustive_search": 20}
@@ -32,9 +33,14 @@ MON = None
 def plan(tier: str, seed: int):
     if tier == "quick":
         return [{"name": f"s{i}", "engine": "jit", "args": {"n": 1500},
-                 "timeout": 900} for i in range(4)]
+                 "timeout": 900} for i in range(4)] + [
+            {"name": "threads", "engine": "jit", "timeout": 900,
+             "args": {"mode": "threads", "n": 3, "threads": 6, "loops": 40}}]
     return [{"name": f"s{i}", "engine": "jit", "args": {"n": 30000},
-             "timeout": 3400} for i in range(16)]
+             "timeout": 3400} for i in range(14)] + [
+        {"name": f"threads{i}", "engine": "jit", "timeout": 3400,
+         "args": {"mode": "threads", "n": 30, "threads": 6, "loops": 60}}
+        for i in range(2)]
 
 
 def _monitor(ctx):
@@ -254,7 +260,76 @@ def strips_case(ctx, rng):
                 f"pairs", None, light=True)
 
 
+def threads_shard(ctx, args):
+    """Instances built by several threads at the same time (a thread pool
+    loading a benchmark set): every bound must equal what the same data
+    gives when built alone."""
+    import sys
+    import threading
+    rng = ctx.rng
+    old_int = sys.getswitchinterval()
+    sys.setswitchinterval(1e-5)
+    try:
+        for rnd in range(args["n"]):
+            descs = []
+            while len(descs) < 6:
+                d = wb.gen_instance(rng, str(rng.choice(
+                    ["general", "twins", "forcedrot", "itembin", "unit"])))
+                try:
+                    ref = wb.make_real(d)
+                except ValueError:
+                    continue
+                descs.append((d, int(ref.lower_bound_bins),
+                              int(ref.total_item_area)))
+            # two with many equal squares: long bound computations
+            for side, W in ((10, 100), (60, 100)):
+                d = {"name": wb._name(rng), "W": W, "H": W,
+                     "items": [[side, side, 50]], "cls": "squares"}
+                ref = wb.make_real(d)
+                descs.append((d, int(ref.lower_bound_bins),
+                              int(ref.total_item_area)))
+            bad: list = []
+            loops = int(args.get("loops", 40))
+
+            def work(tid):
+                from moptipyapps.binpacking2d.instance import Instance
+                for it in range(loops):
+                    for k in range(len(descs)):
+                        d, lb, area = descs[(k + tid) % len(descs)]
+                        try:
+                            i2 = Instance(d["name"], d["W"], d["H"],
+                                          [list(r) for r in d["items"]])
+                        except Exception as e:  # noqa: BLE001
+                            bad.append((d, f"{type(e).__name__}: {e}", lb))
+                            return
+                        if int(i2.lower_bound_bins) != lb or int(
+                                i2.total_item_area) != area:
+                            bad.append((d, int(i2.lower_bound_bins), lb))
+                            return
+            ths = [threading.Thread(target=work, args=(t,))
+                   for t in range(int(args.get("threads", 6)))]
+            for t in ths:
+                t.start()
+            for t in ths:
+                t.join()
+            ctx.case(len(ths) * loops * len(descs))
+            ctx.count("concurrent_constructions",
+                      len(ths) * loops * len(descs))
+            if bad:
+                d, got, lb = bad[0]
+                ctx.violation(
+                    "bound-differs-under-concurrent-construction",
+                    f"lower_bound_bins = {got} when built while other "
+                    f"threads build instances, {lb} when built alone",
+                    ctx.shard_replay_case(what="threads", desc=d))
+                return
+    finally:
+        sys.setswitchinterval(old_int)
+
+
 def run_shard(ctx, args):
+    if args.get("mode") == "threads":
+        return threads_shard(ctx, args)
     rng = ctx.rng
     _monitor(ctx)
     names = None
